@@ -10,6 +10,7 @@ import CallbagModel.Inv.FromIter
 import CallbagModel.Inv.Fuse
 import CallbagModel.Inv.Merge
 import CallbagModel.Inv.MonSound
+import CallbagModel.Inv.PlugOpSafe
 import CallbagModel.Inv.PlugSafe
 import CallbagModel.Inv.Readable
 import CallbagModel.Inv.Relay
@@ -91,6 +92,10 @@ theorem C03_flatten_network {So Lo Si Li αo αi : Type} {Mo : Machine So Lo αo
     ∀ s, SReach (flatPlug Mo Mi initOf) s → SafeFor 3 s :=
   fun s hs => safeFor_of_basicSafe _ s hs (FlatPlugSafe.flatPlug_basicSafe H s hs) 3 (by decide)
 
+theorem C03_member_of_concat {S1 L1 β : Type} {M1 : Machine S1 L1 β β} (h1 : Pipeable M1) (n : Nat) (hn : 0 < n) (j : Nat) :
+    ∀ s, SReach (plugOp j M1 (Concat.machine β n)) s → SafeFor 3 s :=
+  fun s hs => safeFor_of_basicSafe _ s hs (PlugOpSafe.plugOp_concat_basicSafe h1 n hn j s hs) 3 (by decide)
+
 
 /-! ## What the monitor verdict means, in terms of the trace alone
 
@@ -164,6 +169,10 @@ theorem C03_flatten_network_readable {So Lo Si Li αo αi : Type} {Mo : Machine 
     (H : FlatPlugSafe.HypF Mo Mi initOf) :
     ∀ s, SReach (flatPlug Mo Mi initOf) s → ∀ k, DisposalRespected k s.tr :=
   fun s hs k => (readable_of_noViols hs (FlatPlugSafe.flatPlug_basicSafe H s hs).1 k).2.2
+
+theorem C03_member_of_concat_readable {S1 L1 β : Type} {M1 : Machine S1 L1 β β} (h1 : Pipeable M1) (n : Nat) (hn : 0 < n) (j : Nat) :
+    ∀ s, SReach (plugOp j M1 (Concat.machine β n)) s → ∀ k, DisposalRespected k s.tr :=
+  fun s hs k => (readable_of_noViols hs (PlugOpSafe.plugOp_concat_basicSafe h1 n hn j s hs).1 k).2.2
 
 /-- the oracle that judges traces recorded from the real crate IS the monitor of these theorems: on every model execution the
 machine-free monitor `monRun` (Mon.lean), folded over the boundary trace alone, computes exactly the ghost carried by the configuration
